@@ -2,7 +2,7 @@
 From RecordUpdate Require Import RecordUpdate.
 From Coq Require Import List ZArith NArith Lia Bool Arith.
 From Coq.Strings Require Import Byte.
-From L3 Require Import Msgid Conn ConnProofs ConnAccount ConnLin2 ConnNoWrap.
+From L3 Require Import Msgid Conn ConnProofs ConnAccount ConnLin2 ConnC04 ConnNoWrap ConnAbandon.
 Import ListNotations.
 
 Theorem c13_below_wrap : forall evs : list ev, Forall wf_ev evs -> Z.of_nat (length evs) < MAX -> quiescent (run repaired evs) = true -> clean (run repaired evs) = true.
@@ -14,6 +14,12 @@ Proof. exact ConnLin2.c13_all_schedules_partial. Qed.
 Theorem c13_hypotheses_met : let h1 := [Start (KSearch true) None; DrvOp; CliPoll 0; ServerSend done1; DrvResp; StreamNext 0; StreamFinish 0] in let h2 := [Start KSingle None; DrvOp; Start (KAbandon 1) None; DrvOp; CliPoll 1; CliPoll 0] in let h3 := [Start KSingle (Some 0); CliPoll 0; DrvScrub; DrvOp] in Forall (fun h : list ev => Forall wf_ev h /\ NoDup (map o_mid (ops (run repaired h))) /\ quiescent (run repaired h) = true) [h1; h2; h3].
 Proof. exact ConnLin2.c13_hypotheses_met. Qed.
 
+(* one Abandon step of the repaired driver, for a single (non-search) target t that is still waiting: the request on the wire names t, no routing state for t is left, both message ids are released, the waiting caller's channel is closed *)
+Theorem c13_abandon_single : forall (s : st) (o : nat) (q : list nat) (c : cop) (t : Z) (o' : nat) (c' : cop), fix9 (fx s) = true -> is_running s = true -> opq s = o :: q -> getop s o = Some c -> o_kind c = KAbandon t -> alookup t (rmap s) = Some o' -> getop s o' = Some c' -> o' <> o -> let s' := step s DrvOp in In (o_mid c, KAbandon t) (wout s') /\ alookup t (rmap s') = None /\ alookup t (smap s') = None /\ ~ In t (inuse s') /\ ~ In (o_mid c) (inuse s') /\ (exists c'' : cop, getop s' o' = Some c'' /\ (o_reply c' = OsEmpty -> o_reply c'' = OsClosed)).
+Proof. exact ConnAbandon.c13_abandon_single. Qed.
+
+
 Print Assumptions c13_below_wrap.
 Print Assumptions c13_all_schedules_partial.
 Print Assumptions c13_hypotheses_met.
+Print Assumptions c13_abandon_single.
